@@ -23,7 +23,7 @@ Definition is_wild (st : state) (s : nat) : Prop :=
 Definition idx_ok (c : sub) : Prop :=
   match spc c with
   | S0 => snodes c = []
-  | SApp i | SBus i => length (snodes c) = i
+  | SApp i _ | SBus i => length (snodes c) = i
   | _ => True
   end.
 
@@ -122,7 +122,7 @@ Proof.
     + exact (iK st I n0 nd0 s H0).
 Qed.
 
-Lemma F_nodes_app : forall st ty, Inv2 st -> Inv2 (set_nodes st (nodes st ++ [mkNode ty None [] None false 0])).
+Lemma F_nodes_app : forall st ty, Inv2 st -> Inv2 (set_nodes st (nodes st ++ [mkNode ty None [] None false 0 0])).
 Proof.
   intros st ty I. constructor; try (destruct I; assumption).
   - intros k e n0 todo Hk Hp. destruct (iL st I k e n0 todo Hk Hp) as [nd0 [A [B C]]]. exists nd0. cbn.
@@ -325,8 +325,12 @@ Proof.
     apply F_bmap, F_nodes_app, I.
 Qed.
 
-Lemma take_blk_inv : forall st t st', Inv2 st -> take_blk st t = Some st' -> Inv2 st'.
-Proof. intros st t st' I E. unfold take_blk in E. destruct (blk st); inversion E; subst. apply F_blk, I. Qed.
+Lemma with_node_inv : forall st ty st1 n, Inv2 st -> with_node st ty = Some (st1, n) -> Inv2 st1.
+Proof.
+  intros st ty st1 n I E. unfold with_node in E. pose proof (lookup_inv st ty I) as I1.
+  destruct (lookup st ty) as [sl m]. cbn in I1. destruct (nth_error (nodes sl) m) as [nd|] eqn:En; inversion E; subst.
+  eapply F_node_same; [exact I1|exact En|reflexivity|reflexivity].
+Qed.
 
 Lemma try_drop_inv : forall st ty st', Inv2 st -> try_drop st ty = Some st' -> Inv2 st'.
 Proof.
@@ -341,11 +345,11 @@ Proof.
   destruct (nth_error (emitters st) j) as [m|]; [|discriminate].
   destruct (mnew m) as [|[|[|[|?]]]].
   - inversion E; subst. apply F_emitters, I.
-  - otau_inv E. apply F_emitters. eapply take_blk_inv; eassumption.
-  - pose proof (lookup_inv st (mty m) I) as I1. destruct (lookup st (mty m)) as [st1 n]. cbn in I1.
-    destruct (nth_error (nodes st1) n) as [nd|] eqn:En; [|discriminate].
+  - destruct (with_node st (mty m)) as [[st1 n]|] eqn:Ew; [|discriminate]. inversion E; subst.
+    apply F_emitters. eapply with_node_inv; eassumption.
+  - destruct (nth_error (nodes st) (mnode m)) as [nd|] eqn:En; [|discriminate].
     destruct (holder nd); [discriminate|]. inversion E; subst. apply F_emitters.
-    eapply F_node_same; [apply F_blk, I1|exact En|reflexivity|reflexivity].
+    eapply F_node_same; [exact I|exact En|reflexivity|reflexivity].
   - inversion E; subst. apply F_emitters, I.
   - discriminate.
 Qed.
@@ -359,7 +363,7 @@ Proof.
   - destruct (mclosed m); inversion E; subst; apply F_emitters, I.
   - destruct (nth_error (nodes st) (mnode m)) as [nd|] eqn:En; inversion E; subst. apply F_emitters.
     eapply F_node_same; [exact I|exact En|reflexivity|reflexivity].
-  - otau_inv E. apply F_emitters. eapply take_blk_inv; eassumption.
+  - inversion E; subst. apply F_emitters, I.
   - otau_inv E. apply F_emitters. eapply try_drop_inv; eassumption.
   - inversion E; subst. apply F_emitters, I.
   - discriminate.
@@ -375,7 +379,7 @@ Qed.
 (* withNode + append: s joins node n, the lock passes to the replay goroutine *)
 Lemma F_subscribe : forall st s c n nd i p c2 nd',
   Inv2 st -> nth_error (subs st) s = Some c -> nth_error (nodes st) n = Some nd -> holder nd = None ->
-  cpc c = K0 -> spc c = SApp i ->
+  cpc c = K0 -> spc c = SApp i n ->
   holder nd' = Some (TReplay s i) -> sinks nd' = sinks nd ++ [s] ->
   rpend c2 = rpend c ++ [true] -> snodes c2 = snodes c ++ [n] -> styps c2 = styps c -> cpc c2 = K0 ->
   spc c2 = p -> (p = SBus (S i) \/ p = SRet) ->
@@ -451,18 +455,17 @@ Proof.
       unfold idx_ok in *; cbn; rewrite Ep in Hi; intros _.
     + destruct tys; [exact Logic.I|]. rewrite Hi. reflexivity.
     + exact Logic.I.
-  - otau_inv E. eapply F_sub; [eapply take_blk_inv; eassumption|rewrite (take_blk_subs _ _ _ E); exact Ec|].
+  - destruct (styps c) as [tys|] eqn:Et; [|discriminate]. destruct (nth_error tys i) as [ty|]; [|discriminate].
+    destruct (with_node st ty) as [[st1 n]|] eqn:Ew; [|discriminate]. inversion E; subst.
+    eapply F_sub; [eapply with_node_inv; eassumption|rewrite (with_node_subs _ _ _ _ Ew); exact Ec|].
     apply spc_ctl. unfold idx_ok. cbn. rewrite Ep. auto.
   - destruct (styps c) as [tys|] eqn:Et; [|discriminate].
-    destruct (nth_error tys i) as [ty|]; [|discriminate].
-    pose proof (lookup_inv st ty I) as I1. pose proof (lookup_subs st ty) as Hl.
-    destruct (lookup st ty) as [st1 n]. cbn in I1, Hl.
-    destruct (nth_error (nodes st1) n) as [nd|] eqn:En; [|discriminate].
+    destruct (nth_error (nodes st) n) as [nd|] eqn:En; [|discriminate].
     destruct (holder nd) eqn:Hh; [discriminate|]. inversion E; subst. clear E.
     assert (Hk : cpc c = K0) by (apply cpc_K0; [exact Hloc|congruence]).
-    eapply (F_subscribe (set_blk st1 None) s c n nd i); try reflexivity.
-    + apply F_blk, I1.
-    + cbn. rewrite Hl. exact Ec.
+    eapply (F_subscribe st s c n nd i); try reflexivity.
+    + exact I.
+    + exact Ec.
     + exact En.
     + exact Hh.
     + exact Hk.
@@ -627,7 +630,7 @@ Proof.
     destruct ((match remove_swap s (sinks nd) with [] => true | _ :: _ => false end) && Nat.eqb (nem nd) 0).
     + reflexivity.
     + apply remaining_knext.
-  - otau_inv E. eapply F_sub; [eapply take_blk_inv; eassumption|rewrite (take_blk_subs _ _ _ E); exact Ec|].
+  - inversion E; subst. eapply F_sub; [exact I|exact Ec|].
     apply cpc_ctl. unfold remaining. cbn. rewrite Ek. reflexivity.
   - destruct (nth_error (snodes c) i) as [n|]; [|discriminate].
     destruct (nth_error (nodes st) n) as [nd|]; [|discriminate].
